@@ -42,6 +42,10 @@ class Path:
         self.notes = []
         self.fresh = 0
         self.decomp = {}           # z3 ast id -> (base, digit terms lsb first, term)
+        # feasibility of branches is decided on an integer abstraction of the path condition as soon as it
+        # mentions sequences (sat queries over z3 Seq are slow); over-approximating feasibility is sound for proving
+        self.light = None
+        self.lenvars = {}
 
     def assume(self, c):
         if isinstance(c, SymBool):
@@ -52,6 +56,17 @@ class Path:
             return
         self.pc.append(c)
         self.solver.add(c)
+        if self.light is None and _mentions_seq(c):
+            self.light = z3.Solver()
+            self.light.set("timeout", 3000)
+            for old in self.pc[:-1]:
+                a = _abstract(self, old)
+                if a is not None:
+                    self.light.add(a)
+        if self.light is not None:
+            a = _abstract(self, c)
+            if a is not None:
+                self.light.add(a)
 
     def check(self, *extra):
         import time
@@ -77,8 +92,20 @@ class Path:
             if d < 2:
                 self.assume(cond if d else z3.Not(cond))
             return bool(d & 1)
-        rt = self.check(cond)
-        rf = self.check(z3.Not(cond)) if rt != z3.unsat else z3.sat
+        if self.light is not None:
+            ac = _abstract(self, cond)
+            if ac is None:
+                rt = rf = z3.sat          # not expressible in the abstraction: both sides explored
+            else:
+                import time as _t
+                t0 = _t.time()
+                self.nqueries += 2
+                rt = self.light.check(ac)
+                rf = self.light.check(z3.Not(ac)) if rt != z3.unsat else z3.sat
+                self.solver_s += _t.time() - t0
+        else:
+            rt = self.check(cond)
+            rf = self.check(z3.Not(cond)) if rt != z3.unsat else z3.sat
         if rt == z3.unknown or rf == z3.unknown:
             # unknown is treated as feasible (sound for proving: more paths), but remembered
             self.notes.append("feasibility-unknown")
@@ -108,6 +135,83 @@ class Path:
     def fresh_int(self, name):
         self.fresh += 1
         return z3.Int("%s!%d" % (name, self.fresh))
+
+
+def _mentions_seq(e):
+    seen = set()
+    todo = [e]
+    while todo:
+        t = todo.pop()
+        if t.get_id() in seen:
+            continue
+        seen.add(t.get_id())
+        if z3.is_seq(t):
+            return True
+        if z3.is_app(t):
+            todo.extend(t.children())
+    return False
+
+
+def _abs_len(path, t):
+    """integer abstraction of Length(t) for a sequence term t"""
+    if z3.is_app(t):
+        k = t.decl().kind()
+        if k == z3.Z3_OP_SEQ_CONCAT:
+            return z3.Sum([_abs_len(path, c) for c in t.children()])
+        if k == z3.Z3_OP_SEQ_UNIT:
+            return z3.IntVal(1)
+        if k == z3.Z3_OP_SEQ_EMPTY:
+            return z3.IntVal(0)
+    key = t.get_id()
+    if key not in path.lenvars:
+        v = z3.Int("len!%d" % len(path.lenvars))
+        path.lenvars[key] = (v, t)
+        path.light.add(v >= 0)
+        if z3.is_app(t) and t.decl().kind() == z3.Z3_OP_SEQ_EXTRACT:
+            s0, off, ln = t.children()
+            a_ln = _abstract_term(path, ln)
+            a_s0 = _abs_len(path, s0)
+            path.light.add(v <= a_s0)
+            if a_ln is not None:
+                path.light.add(z3.Implies(a_ln >= 0, v <= a_ln))
+                a_off = _abstract_term(path, off)
+                if a_off is not None:
+                    path.light.add(z3.Implies(z3.And(a_off >= 0, a_ln >= 0, a_off + a_ln <= a_s0), v == a_ln))
+    return path.lenvars[key][0]
+
+
+def _abstract_term(path, t):
+    """abstraction of an Int/Bool term; None when it depends on sequence contents"""
+    if z3.is_seq(t):
+        return None
+    if not z3.is_app(t):
+        return None
+    k = t.decl().kind()
+    if k == z3.Z3_OP_SEQ_LENGTH:
+        return _abs_len(path, t.arg(0))
+    if t.num_args() == 0:
+        return t
+    kids = []
+    for c in t.children():
+        if z3.is_seq(c):
+            return None
+        a = _abstract_term(path, c)
+        if a is None:
+            return None
+        kids.append(a)
+    try:
+        return t.decl()(*kids)
+    except Exception:  # noqa
+        return None
+
+
+def _abstract(path, c):
+    """sound over-approximation of a Bool constraint without sequence contents (None = dropped)"""
+    if z3.is_and(c):
+        parts = [_abstract(path, x) for x in c.children()]
+        parts = [x for x in parts if x is not None]
+        return z3.And(*parts) if parts else None
+    return _abstract_term(path, c)
 
 
 _current = [None]
